@@ -169,3 +169,7 @@ pub struct ThreadStats {
     /// 0 = idle, 1 = marking, 2 = sweeping
     pub gc_state: u8,
 }
+
+/// The compiled-program type (otherwise unnameable outside the crate), so a
+/// harness can compile once and start several runtimes from clones.
+pub use crate::translate_bytecode::CompiledProgram;
